@@ -468,6 +468,85 @@ def _beads_kernel(tree, out):
         raise TranslateError('_numba_banded_dot_banded: loop nest differs from the modelled one: ' + repr(text)[:400])
     out.append('Definition beads_kernel_is_modelled : bool := true.')
 
+
+# ------------------------------------------------------------------ every place the package looks at the optional dependencies
+FLAG_NAMES = {'_HAS_NUMBA', '_HAS_PENTAPY'}
+OPT_MODULES = {'numba', 'pentapy', 'llvmlite'}
+PROBE_ATTRS = {'py_func', 'find_spec', 'import_module', '__wrapped__'}
+
+
+def _sites(repo):
+    """(flag sites, jit-decorated functions) of the whole package.  A flag site is any occurrence of
+    _HAS_NUMBA / _HAS_PENTAPY (import, assignment, read), any import of numba / pentapy / llvmlite, and any
+    use of py_func / find_spec / import_module / __wrapped__ / sys.modules (other ways to tell whether the
+    optional packages are there), with the function it occurs in."""
+    import os
+    from trlib import REPO
+    root = os.path.join(repo or REPO, 'pybaselines')
+    files = []
+    for d, dirs, fs in os.walk(root):
+        dirs[:] = sorted(x for x in dirs if x != '__pycache__')
+        for f in sorted(fs):
+            if f.endswith('.py'):
+                files.append(os.path.relpath(os.path.join(d, f), os.path.join(root, '..')))
+    sites, jits = [], []
+    for rel in sorted(files):
+        tree, _ = _parse(rel, repo)
+
+        def visit(node, scope):
+            if isinstance(node, (ast.FunctionDef, ast.AsyncFunctionDef, ast.ClassDef)):
+                for dec in getattr(node, 'decorator_list', []):
+                    t = _u(dec)
+                    if t == 'jit' or t.startswith('jit(') or 'numba' in t:
+                        jits.append((rel, '.'.join(scope + [node.name]), t))
+                    visit(dec, scope)
+                inner = scope + [node.name]
+                for ch in ast.iter_child_nodes(node):
+                    if ch not in getattr(node, 'decorator_list', []):
+                        visit(ch, inner)
+                return
+            where = '.'.join(scope) or '<module>'
+            if isinstance(node, ast.Name) and node.id in FLAG_NAMES:
+                sites.append((rel, where, ('store ' if isinstance(node.ctx, ast.Store) else 'read ') + node.id))
+            elif isinstance(node, ast.Attribute) and (node.attr in FLAG_NAMES or node.attr in PROBE_ATTRS):
+                sites.append((rel, where, 'attr ' + node.attr))
+            elif isinstance(node, ast.Attribute) and _u(node) == 'sys.modules':
+                sites.append((rel, where, 'attr sys.modules'))
+            elif isinstance(node, ast.Constant) and isinstance(node.value, str) and node.value in (FLAG_NAMES | OPT_MODULES):
+                sites.append((rel, where, 'string ' + node.value))
+            elif isinstance(node, ast.ImportFrom):
+                mod = node.module or ''
+                if mod.split('.')[0] in OPT_MODULES:
+                    sites.append((rel, where, 'import from ' + mod))
+                for a in node.names:
+                    if a.name in FLAG_NAMES:
+                        sites.append((rel, where, 'import ' + a.name))
+            elif isinstance(node, ast.Import):
+                for a in node.names:
+                    if a.name.split('.')[0] in OPT_MODULES:
+                        sites.append((rel, where, 'import ' + a.name))
+            for ch in ast.iter_child_nodes(node):
+                visit(ch, scope)
+        visit(tree, [])
+    return sorted(sites), sorted(jits)
+
+
+def _emit_sites(repo, out):
+    sites, jits = _sites(repo)
+
+    def q(t):
+        if '"' in t:
+            raise TranslateError(f'quote in site text {t!r}')
+        return '"' + t + '"%string'
+    out.append('(* every occurrence of the optional-dependency flags / imports / probes in the package, with its scope *)')
+    out.append('Definition flag_sites : list (string * string * string) := [')
+    out.append(';\n'.join(f'  ({q(a)}, {q(b)}, {q(c)})' for a, b, c in sites))
+    out.append('].')
+    out.append('(* every jit-decorated function *)')
+    out.append('Definition jit_functions : list (string * string * string) := [')
+    out.append(';\n'.join(f'  ({q(a)}, {q(b)}, {q(c)})' for a, b, c in jits))
+    out.append('].')
+
 tree2 = [None]
 
 
@@ -478,7 +557,7 @@ def gen_c10(repo=None):
     tree2[0] = tbu
     out = ['(* GENERATED by tools/translate.py (tools/gen_c10.py) from pybaselines/_algorithm_setup.py, '
            '_banded_utils.py, _compat.py -- do not edit *)',
-           'From Coq Require Import ZArith List Bool.',
+           'From Coq Require Import ZArith List Bool String.',
            'From PB Require Import C10.Syntax.',
            'Import ListNotations.', 'Open Scope Z_scope.', '']
     _setter(tas, out)
@@ -490,6 +569,7 @@ def gen_c10(repo=None):
     _beads(tmi, out)
     _beads_kernel(tmi, out)
     _compat(tco, out)
+    _emit_sites(repo, out)
     return '\n'.join(out) + '\n'
 
 
